@@ -459,6 +459,19 @@ func (r *cwRig) do(a Step) []string {
 			return []string{fmt.Sprintf("ACancel %d", a.C)}
 		}
 		return nil
+	case "cancelblk":
+		// the caller cancels while the client's transport accepts no Write: the teardown's RST_STREAM Write blocks until
+		// its own 30 s deadline and then fails (back-pressure, then a per-message failure); afterwards Writes work again.
+		// For the model: a cancellation whose reset Write is refused.
+		if a.C >= len(r.cancels) {
+			return nil
+		}
+		r.link.C.BlockWrites()
+		r.cancels[a.C]()
+		time.Sleep(30*time.Second + time.Millisecond)
+		r.link.C.UnblockWrites()
+		// (the generators follow this step with "wfail 0": the model's transport accepts Writes again)
+		return []string{"ASetWriteFail true", fmt.Sprintf("ACancel %d", a.C)}
 	case "holdloop":
 		// the next time a stream loop is about to re-enter its Read it is held (yield point cs.loop.read)
 		r.mu.Lock()
